@@ -22,6 +22,7 @@ def run(chk: Check) -> None:
     from ramses_rf.system.faultlog import FaultLog
     from ramses_tx.command import Command
     from ramses_tx.const import FaultDeviceClass, FaultState, FaultType
+    from ramses_tx.exceptions import ProtocolSendFailed
     from ramses_tx.message import Message
     from ramses_tx.packet import Packet
 
@@ -86,6 +87,23 @@ def run(chk: Check) -> None:
         cleared = False
         top_unknown = False   # an announcement arrived while position 0 was unknown (recorded finding): the view is off by one since
         ok_hist = True
+
+        def announce(k: int) -> None:
+            """the controller's unsolicited I|0418 for its new top entry, through the public handler; scored at once:
+            the known entries move down by one"""
+            nonlocal top_unknown
+            before = {i: stamp_to_k(d) for i, d in flog._map.items()}
+            flog.handle_msg(msg_entry(" I", 0, k))
+            reported.add(k)
+            evs.append(f"E0:{k}")
+            after = {i: stamp_to_k(d) for i, d in flog._map.items()}
+            want = {0: k, **{i + 1: v for i, v in before.items() if i + 1 <= 0x3E}}
+            if after != want:
+                _viol(chk, found_classes, "announce-shift" + (".top-unknown" if 0 not in before else "") + taint(), evs,
+                      f"an announcement of a new entry turned the view {before} into {after}, not {want}")
+                if 0 not in before:
+                    top_unknown = True
+
         for _ in range(steps):
             r = rnd.random()
             try:
@@ -102,24 +120,14 @@ def run(chk: Check) -> None:
                     ctl.insert(0, clock)
                     del ctl[64:]
                     if rnd.random() < 0.7:
-                        before = {i: stamp_to_k(d) for i, d in flog._map.items()}
-                        flog._process_msg(msg_entry(" I", 0, clock))
-                        reported.add(clock)
-                        evs.append(f"E0:{clock}")
-                        after = {i: stamp_to_k(d) for i, d in flog._map.items()}
-                        want = {0: clock, **{i + 1: v for i, v in before.items() if i + 1 <= 0x3E}}
-                        if after != want:
-                            _viol(chk, found_classes, "announce-shift" + (".top-unknown" if 0 not in before else "") + taint(), evs,
-                                  f"an announcement of a new entry turned the view {before} into {after}, not {want}")
-                            if 0 not in before:
-                                top_unknown = True
+                        announce(clock)
                     else:
                         lost_any = True
                         continue
                 elif r < 0.75:
                     i = rnd.randrange(0, min(len(ctl) + 2, 63))
                     if i < len(ctl):
-                        flog._process_msg(msg_entry("RP", i, ctl[i]))
+                        flog.handle_msg(msg_entry("RP", i, ctl[i]))       # (an overheard / late reply comes in through the handler)
                         reported.add(ctl[i])
                         evs.append(f"E{i}:{ctl[i]}")
                     else:
@@ -131,12 +139,29 @@ def run(chk: Check) -> None:
                     del ctl[64:]
                     before_evs = list(evs)
 
+                    ann_at = rnd.choice((None, None, None, 0, 1, 2, 4))     # a new entry is announced while the n-th reply is awaited
+                    fail_at = rnd.choice((None, None, None, None, 0, 1, 3))  # the n-th request fails (ProtocolSendFailed)
+                    disturbed = [False]
+
                     async def fake_send(cmd, **kw):
+                        nonlocal clock
                         i = int(cmd.payload[4:6], 16)
+                        n = len(asked)
                         asked.append(i)
+                        if n == ann_at:
+                            disturbed[0] = True
+                            clock += rnd.randint(1, 5)
+                            ctl.insert(0, clock)
+                            del ctl[64:]
+                            announce(clock)          # (the spy below records the view)
+                        if n == fail_at:
+                            disturbed[0] = True
+                            raise ProtocolSendFailed("scripted: no reply")
                         if i < len(ctl):
                             reported.add(ctl[i])
+                            evs.append(f"E{i}:{ctl[i]}")
                             return Packet(dt.now(), "... " + entry_frame("RP", i, ctl[i]))
+                        evs.append(f"N{i}")
                         return Packet(dt.now(), f"... RP --- {CTL} {GWY} --:------ 0418 022 {NULL}")
 
                     asked: list[int] = []
@@ -150,11 +175,23 @@ def run(chk: Check) -> None:
                     flog._process_msg = spy
                     try:
                         aloop.run_until_complete(flog.get_faultlog(start=start, limit=limit))
+                    except ProtocolSendFailed:
+                        chk.count("get_faultlog.failed_midway")
                     finally:
                         del flog._process_msg
-                    for i in asked:
-                        evs.append(f"E{i}:{ctl[i]}" if i < len(ctl) else f"N{i}")
                     eff = 6 if limit is None else limit
+                    if disturbed[0]:
+                        # (exactness is promised only "with nothing changing meanwhile"; the view's invariants are scored below,
+                        # and every later announcement must still push the entries down)
+                        chk.count("get_faultlog.disturbed")
+                        LAST_VIEW[";".join(evs)] = _show(flog, stamp_to_k)
+                        view = {i: stamp_to_k(dtm) for i, dtm in flog._map.items()}
+                        ks = [v for _, v in sorted(view.items())]
+                        if len(set(ks)) != len(ks) or any(a <= b for a, b in zip(ks, ks[1:])):
+                            _viol(chk, found_classes, ("duplicate" if len(set(ks)) != len(ks) else "order") + taint(), evs,
+                                  f"after a read-through disturbed by an announcement / a failed request the view is {view}")
+                            ok_hist = False
+                        continue
                     D.add("flog.get", [";".join(before_evs), ",".join(map(str, ctl)), str(start), str(eff)], "ok\t" + _show(flog, stamp_to_k))
                     chk.count(f"get_faultlog.depth{'64' if len(ctl) == 64 else '<64'}.limit{'>=64' if eff >= 64 else '<64'}")
                     # readthrough_exact: over the range read (the positions start .. min(start+limit, 64)-1 that the
